@@ -481,6 +481,9 @@ func (m Model) opsFieldsCx(ops []Op, where string, st *evState, cx *ctxEffects) 
 			st.stack = true
 		case "ctx":
 			st.ctx = string(v.S)
+			if v.EK == "alt" {
+				st.ctx = "alt:" + st.ctx
+			}
 			if v.Nil {
 				st.ctx = ""
 			}
@@ -761,6 +764,10 @@ func levelOf(ev EventSpec) int {
 		return 3
 	case "withlevel":
 		return ev.Level
+	case "write", "stdlog":
+		return 6 // the io.Writer entry (also behind a standard log.Logger): no level
+	case "print", "printf", "println":
+		return 0
 	}
 	panic("levelOf")
 }
@@ -794,7 +801,9 @@ func (m Model) Event(l *LoggerModel, ev EventSpec) ExpEvent {
 	if ev.Method == "err" && ev.ErrV.EK != "nil" {
 		f = append(f, m.opsFields([]Op{{V: Val{T: "err", EK: ev.ErrV.EK, S: ev.ErrV.S}}}, "event", st)...)
 	}
-	f = append(f, m.opsFields(ev.Ops, "event", st)...)
+	if !Direct(ev.Method) { // (a one-call entry point takes no fields: ops a generator put there are not applied)
+		f = append(f, m.opsFields(ev.Ops, "event", st)...)
+	}
 	msg := string(ev.Msg)
 	switch ev.Fin {
 	case "send":
@@ -803,6 +812,13 @@ func (m Model) Event(l *LoggerModel, ev EventSpec) ExpEvent {
 		msg += "7"
 	case "msgf0":
 		msg = fmt.Sprintf(msg) // documented: "formatted msg"; fmt is the reference
+	}
+	switch ev.Method {
+	case "println":
+		msg += "\n" // fmt.Sprintln
+	case "stdlog":
+		// the standard logger ends the line unless it is ended already; Write trims one line end
+		msg = strings.TrimSuffix(msg, "\n")
 	}
 	cur := lvl
 	discarded := false
@@ -822,6 +838,10 @@ func (m Model) Event(l *LoggerModel, ev EventSpec) ExpEvent {
 				f = append(f, m.opsFields(h.Spec.Ops, "event", st)...)
 			case "getctx":
 				f = append(f, ExpField{ValidText(h.Spec.K), strS(st.ctx)})
+			case "getctxif":
+				if st.ctx != "" {
+					f = append(f, ExpField{ValidText(h.Spec.K), strS(st.ctx)})
+				}
 			case "discard":
 				discarded = true
 				st.discarded = true
